@@ -47,6 +47,9 @@ impl<In> EffFn<In> {
     { unimplemented!() }
 }
 
+#[verifier::external_body]
+pub fn arbitrary_value<T>() -> T { unimplemented!() }
+
 pub open spec fn ended<T>(d: Seq<Ev<T>>) -> bool { d.len() > 0 && !(d.last() is N) }
 
 pub open spec fn items_of<T>(s: Seq<T>) -> Seq<Ev<T>> { s.map_values(|x: T| Ev::N(x)) }
